@@ -97,10 +97,10 @@ theorem C08_replace (s : Sched) (hr : Reach s) (n i : Nat) (h : s.table n = some
   exact ⟨htab, hlog, (C08_killed_never_fires _ i hi' hkill evs).trans hlog⟩
 
 /-- **Cancellation.** If the registration of task `i` is ended (`UnregisterTask`, a new registration of
-the name, `Clear`, `Close`) while the clock is still at least one tick before its first due time,
+the name, `Clear`, `Close`) while the clock is still before its first due time (by however little),
 the task never fires: not before (`C08_not_early`), not after. -/
 theorem C08_cancel (s : Sched) (hr : Reach s) (i : Nat) (hi : i < s.nobjs)
-    (hc : (s.objs i).cron = none) (hearly : s.now + s.tick ≤ (s.objs i).base + (s.objs i).after)
+    (hc : (s.objs i).cron = none) (hearly : s.now < (s.objs i).base + (s.objs i).after)
     (ev : Ev) (hcan : Cancels s i ev) (evs : List Ev) :
     fired (runEvents (step s ev).1 evs) i = 0 := by
   have hinv := hr.inv
@@ -112,7 +112,6 @@ theorem C08_cancel (s : Sched) (hr : Reach s) (i : Nat) (hi : i < s.nobjs)
     obtain ⟨a, b, c⟩ := hinv.logt f hf
     rw [hid] at c
     obtain ⟨k, hk⟩ := c hc
-    have := Nat.mod_lt f.exp hinv.tick_pos
     have hk' : (s.objs i).base + (s.objs i).after ≤ f.exp := by rw [hk]; omega
     omega
   have hk := cancel_kills s i ev hinv hi hcan
@@ -159,20 +158,19 @@ theorem C08_clear_kills_all (s : Sched) (hr : Reach s) (i : Nat) (hi : i < s.nob
   · simp only [step, close]; split <;> exact h
   · simp only [step, close]; split <;> rfl
 
-/-- **Not early.** Every firing happens at a time `t` with `t > exp - tick`, where `exp` is the
-expiration of the timer run that produced it, and `exp = base + after + k * interval` for some `k`:
-no firing of a task comes a whole tick before its `k`-th due time, in particular none before
-`base + after - tick`.  (The library bound itself — a firing may come up to, but excluding, one tick
-before its due time — is the known deviation from "not early".) -/
+/-- **Not early.** Every firing happens at a time `t ≥ exp`, where `exp` is the expiration of the timer
+run that produced it, and `exp = base + after + k * interval` for some `k`: no firing of a task comes
+before its `k`-th due time — *whenever* the timing wheel hands the timer out (`expire` is
+unconstrained: the library can hand a timer out a whole lap early, `MV.Findings.C08.wheel_early_handout`).
+What makes it true is the wait in `schedulerTask.Next` (the `fix:` commit "a task is not run before its
+due time"), modelled as the guard `e ≤ now` of the `run` step. -/
 theorem C08_not_early (s : Sched) (hr : Reach s) (f : Firing) (hf : f ∈ s.log) :
-    f.exp < f.time + s.tick ∧ f.time ≤ s.now ∧
+    f.exp ≤ f.time ∧ f.time ≤ s.now ∧
     ((s.objs f.id).cron = none →
       ∃ k, f.exp = (s.objs f.id).base + (s.objs f.id).after + k * (s.objs f.id).interval ∧
-        (s.objs f.id).base + (s.objs f.id).after + k * (s.objs f.id).interval < f.time + s.tick) := by
+        (s.objs f.id).base + (s.objs f.id).after + k * (s.objs f.id).interval ≤ f.time) := by
   obtain ⟨a, b, c⟩ := hr.inv.logt f hf
-  have hm := Nat.mod_lt f.exp hr.inv.tick_pos
-  have h1 : f.exp < f.time + s.tick := by omega
-  refine ⟨h1, b, fun hc => ?_⟩
+  refine ⟨a, b, fun hc => ?_⟩
   obtain ⟨k, hk⟩ := c hc
   exact ⟨k, hk, by omega⟩
 
@@ -198,16 +196,19 @@ theorem C08_close_stops (s : Sched) : (step s .close).1.stopped = true ∨ s.sto
 /-! ## Non-vacuity -/
 
 /-- a scheduler with tick 10: `RegisterRepeatedTask("0", 35ms, 20ms, 3)` registered at time 0 has the
-due times 35, 55, 75; the wheel may run them from 30, 50, 70 on (here: at 30, 55 and 70). -/
+due times 35, 55, 75; the wheel may hand the timers out at any time (here: at 30, 55 and 70, the first
+and the last one early) but they run at 35, 55 and 75 at the earliest. -/
 def demo : Sched :=
-  runEvents (init 10) [.reg 0 35 20 3, .advance 30, .expire 0, .run 0, .advance 25, .expire 0, .run 0,
-    .advance 15, .expire 0, .run 0, .advance 100, .expire 0, .run 0]
+  runEvents (init 10) [.reg 0 35 20 3, .advance 30, .expire 0, .run 0, .advance 5, .run 0, .advance 20, .expire 0, .run 0,
+    .advance 15, .expire 0, .run 0, .advance 5, .run 0, .advance 100, .expire 0, .run 0]
 
 example : Reach demo := ⟨10, _, by decide, rfl⟩
 example : fired demo 0 = 3 ∧ (demo.objs 0).timer = .idle ∧ (demo.objs 0).kill = false := by decide
-example : demo.log.map (fun f => (f.exp, f.time)) = [(75, 70), (55, 55), (35, 30)] := by decide
-/-- a whole tick early is impossible: at time 29 the wheel cannot take the timer with expiration 35 -/
-example : fired (runEvents (init 10) [.reg 0 35 20 3, .advance 29, .expire 0, .run 0]) 0 = 0 := by decide
+example : demo.log.map (fun f => (f.exp, f.time)) = [(75, 75), (55, 55), (35, 35)] := by decide
+/-- early is impossible: the wheel may hand the timer with expiration 35 out at time 0, it does not run
+before 35 -/
+example : fired (runEvents (init 10) [.reg 0 35 20 3, .expire 0, .run 0, .advance 34, .run 0]) 0 = 0 ∧
+    fired (runEvents (init 10) [.reg 0 35 20 3, .expire 0, .run 0, .advance 35, .run 0]) 0 = 1 := by decide
 /-- cancel between `expire` and `run`: the goroutine was started, the callback is suppressed -/
 example : fired (runEvents (init 10) [.reg 0 30 20 3, .advance 30, .expire 0, .unreg 0, .run 0, .advance 100]) 0 = 0 := by
   decide
